@@ -311,6 +311,78 @@ func runCacheBFS(c CacheCase, a *run.Acc) {
 	a.Outcome(fmt.Sprintf("ok/bfs/states=%d", min(len(seen), 1000)/100*100))
 }
 
+// runCacheCloseConc: the segment is closed WHILE expiry passes run (the monitor goroutine is
+// only told to stop by that very Close): one handle opened, used and closed (idle entry), one
+// sequential expiry pass, then Close || two expiry passes; all interleavings.
+func runCacheCloseConc(c CacheCase, a *run.Acc) {
+	body := func(fails *[]string, mu *sync.Mutex) {
+		faiss.Ctl.Reset()
+		faiss.Ctl.ForgetLive()
+		w, err := newCacheWorld(c.Seg)
+		if err != nil {
+			failf(fails, mu, "setup: %v", err)
+			return
+		}
+		defer func() {
+			for _, f := range w.cleanup {
+				f()
+			}
+		}()
+		vi, err := w.seg.(segment.VectorSegment).InterpretVectorIndex("v", false, nil)
+		if err != nil {
+			failf(fails, mu, "InterpretVectorIndex: %v", err)
+			return
+		}
+		q := vecQuery{Field: "v", Q: cacheQuery, K: 2}
+		if got, err := runSearch(vi, q); err != nil {
+			failf(fails, mu, "%v", err)
+		} else if m := checkResult(w.exp, q, got, true); m != "" {
+			failf(fails, mu, "%s: %s", q, m)
+		}
+		vi.Close()
+		zap.VerifVecCacheCleanup(w.seg)
+		parallel(func() {
+			if err := w.seg.Close(); err != nil {
+				failf(fails, mu, "segment Close: %v", err)
+			}
+		}, func() {
+			zap.VerifVecCacheCleanup(w.seg)
+			zap.VerifVecCacheCleanup(w.seg)
+		})
+		if sched.Active() == nil {
+			// free-running: the cache releases indexes in goroutines of its own; wait for them
+			// (the next iteration forgets the live table, a late release would then look like a
+			// double free)
+			if n := engineLive(); n != 0 {
+				failf(fails, mu, "%d native engine objects alive after the segment was closed", n)
+			}
+		}
+		if errs := faiss.Ctl.Errors(); len(errs) > 0 {
+			failf(fails, mu, "engine misuse: %s", strings.Join(errs, "; "))
+		}
+	}
+	concPostCheck = func() string {
+		if n := faiss.Ctl.LiveCount(); n != 0 {
+			return fmt.Sprintf("%d native engine objects alive after the segment was closed and every goroutine ended", n)
+		}
+		return ""
+	}
+	defer func() { concPostCheck = nil }()
+	res := exploreCase(body, sched.Options{PreemptionBound: -1, EnvBound: 0, MaxExecutions: 400000}, 200, a)
+	res.record(a, fmt.Sprint(c))
+	a.NonTrivial(fmt.Sprint(c))
+	if strings.HasPrefix(res.failure, "HARNESS") {
+		a.Note(res.failure)
+		a.Capped = true
+		return
+	}
+	if res.failure != "" {
+		a.Violation("cache-concurrent", fmt.Sprintf("%s segment, open/search/close, one expiry pass, then segment Close || two expiry passes; schedule %v:\n%s", c.Seg, res.schedule, res.failure))
+		return
+	}
+	a.Outcome("ok/closeconc")
+}
+
 func runCacheConc(c CacheCase, a *run.Acc) {
 	body := func(fails *[]string, mu *sync.Mutex) {
 		faiss.Ctl.Reset()
@@ -436,7 +508,7 @@ func init() {
 	run.Register(&run.Def{
 		ID:          "C16",
 		Level:       "model_checking",
-		Rule:        "(a) explicit-state breadth-first search over the REAL vector index cache (vectors tag, stand-in engine, controlled scheduler with spawned goroutines run at the spawn point, the monitor loop replaced by explicit tick events through the verif hook): one segment (3 documents, one with 3 vectors; in-memory and mmap-opened); events open(except in {nil,{0},{1}}, requiresFiltering in {false,true}) with <= 2 handles open, search(h), searchFiltered(h, eligible in {[1],[0,1,2]}), close(h), tick (one expiry pass), segclose (terminal, only without open handles); a successor is computed by replaying the whole history on a fresh segment plus one event; states are deduplicated by a canonical key (private cache state through the verif hook: per field reference count, hit-tracker average bits and sample, documents covered by the cached id->doc map, presence of the doc->ids map, index present; per handle its exclusion bitmap, filtering flag and whether it holds the currently cached index; engine live count). Invariants in every state: every search through a handle equals the reference for THAT handle's exclusion bitmap (exact top-k oracle); the native index of every open handle is alive; no double free / use after free in the engine; after segclose no native object is alive. (b) stateless model checking under the scheduler: searcher A (no exclusion; two open/search/close rounds) || searcher B (except {0}, filtering; two OVERLAPPING handles: open, search, open, close first, search, close) || 3 expiry ticks, then a sequential epilogue (open; 3 expiry passes while the handle is held; search; close), then segment close; interleavings at RWMutex / atomic / spawn points with a preemption bound of 3 (2 for the mmap-opened segment in quick); plus a free-running -race pass with the real goroutines.",
+		Rule:        "(a) explicit-state breadth-first search over the REAL vector index cache (vectors tag, stand-in engine, controlled scheduler with spawned goroutines run at the spawn point, the monitor loop replaced by explicit tick events through the verif hook): one segment (3 documents, one with 3 vectors; in-memory and mmap-opened); events open(except in {nil,{0},{1}}, requiresFiltering in {false,true}) with <= 2 handles open, search(h), searchFiltered(h, eligible in {[1],[0,1,2]}), close(h), tick (one expiry pass), segclose (terminal, only without open handles); a successor is computed by replaying the whole history on a fresh segment plus one event; states are deduplicated by a canonical key (private cache state through the verif hook: per field reference count, hit-tracker average bits and sample, documents covered by the cached id->doc map, presence of the doc->ids map, index present; per handle its exclusion bitmap, filtering flag and whether it holds the currently cached index; engine live count). Invariants in every state: every search through a handle equals the reference for THAT handle's exclusion bitmap (exact top-k oracle); the native index of every open handle is alive; no double free / use after free in the engine; after segclose no native object is alive. (b) stateless model checking under the scheduler: searcher A (no exclusion; two open/search/close rounds) || searcher B (except {0}, filtering; two OVERLAPPING handles: open, search, open, close first, search, close) || 3 expiry ticks, then a sequential epilogue (open; 3 expiry passes while the handle is held; search; close), then segment close; interleavings at RWMutex / atomic / spawn points with a preemption bound of 3 (2 for the mmap-opened segment in quick); (c) the same way, all interleavings of: segment Close || two expiry passes, after open/search/close and one expiry pass (an expiry pass overlapping the close that stops the monitor); plus a free-running -race pass of (b) and (c) with the real goroutines.",
 		Assumptions: []string{"the vector engine is the pure-Go stand-in (DESIGN 3.4)", "a client closes a segment only when it holds no open vector index handle", "filtered search is only issued through handles opened with requiresFiltering"},
 		Bounds:      map[string]string{"quick": "BFS depth 5 (both segment kinds), concurrent harness bound 3 (in-memory) / 2 (mmap-opened)", "thorough": "BFS depth 7, concurrent harness bound 3 for both"},
 		Flavours:    func(string) []string { return []string{"instvec", "racevec"} },
@@ -445,6 +517,8 @@ func init() {
 			if run.Flavour == "racevec" {
 				emit(CacheCase{Kind: "conc", Seg: "mem"})
 				emit(CacheCase{Kind: "conc", Seg: "mmap"})
+				emit(CacheCase{Kind: "closeconc", Seg: "mem"})
+				emit(CacheCase{Kind: "closeconc", Seg: "mmap"})
 				return
 			}
 			depth := 5
@@ -461,6 +535,7 @@ func init() {
 						emit(CacheCase{Kind: "bfs", Seg: seg, Prefix: []int{e1, e2}, Depth: depth})
 					}
 				}
+				emit(CacheCase{Kind: "closeconc", Seg: seg})
 				bs := b
 				if tier == "quick" && seg == "mmap" {
 					bs = b - 1
@@ -474,6 +549,10 @@ func init() {
 			c := *ci.(*CacheCase)
 			if c.Kind == "bfs" {
 				runCacheBFS(c, a)
+				return
+			}
+			if c.Kind == "closeconc" {
+				runCacheCloseConc(c, a)
 				return
 			}
 			runCacheConc(c, a)
